@@ -103,8 +103,12 @@ theorem arSem_lt (op : ArOp) (w x y : Nat) (hx : x < 2 ^ w) (hy : y < 2 ^ w) :
   · exact Nat.and_lt_two_pow _ hy
   · exact Nat.or_lt_two_pow hx hy
   · exact Nat.xor_lt_two_pow hx hy
-  · exact Nat.mod_lt _ hp
-  · exact Nat.lt_of_le_of_lt (Nat.div_le_self _ _) hx
+  · split
+    · exact Nat.mod_lt _ hp
+    · exact hp
+  · split
+    · exact Nat.lt_of_le_of_lt (Nat.div_le_self _ _) hx
+    · exact hp
 
 theorem b2n_lt (b : Bool) : b2n b < 2 ^ 1 := by cases b <;> simp [b2n]
 
